@@ -16,6 +16,7 @@ import (
 	"encoding/base64"
 	"encoding/json"
 	"fmt"
+	"math"
 	"os"
 	"os/exec"
 	"path/filepath"
@@ -46,7 +47,7 @@ function __enc(x) {
   if (x === null) return null;
   var t = typeof x;
   if (t === 'undefined') return {"$undefined": 1};
-  if (t === 'number') return isFinite(x) ? x : {"$number": String(x)};
+  if (t === 'number') return (x === 0 && 1 / x < 0) ? {"$number": "-0"} : isFinite(x) ? x : {"$number": String(x)};
   if (t === 'string' || t === 'boolean') return x;
   if (t !== 'object') return {"$type": t};
   if (Array.isArray(x)) { var a = []; for (var i = 0; i < x.length; i++) a.push(__enc(x[i])); return a; }
@@ -386,6 +387,12 @@ func normJSON(v any) any {
 	switch x := v.(type) {
 	case string:
 		return collapse(x)
+	case float64:
+		// numbers are compared bit for bit: == on float64 plus the sign of zero
+		// (the prelude reports a JavaScript -0 with the same marker)
+		if x == 0 && math.Signbit(x) {
+			return map[string]any{"$number": "-0"}
+		}
 	case []any:
 		for i := range x {
 			x[i] = normJSON(x[i])
@@ -631,6 +638,8 @@ func (e *engine) judgeFresh(cases []Case) []string {
 		for k, i := range idx {
 			if ds == nil || ds[k] == nil {
 				msgs[i] = "inconclusive: no rendering"
+			} else if es[k][pi] != "" && Unencodable(cases[i].V.Shape) {
+				// Render refusing a value encoding/json cannot encode is a data-only outcome
 			} else if es[k][pi] != "" {
 				msgs[i] = "inconclusive: render error " + es[k][pi]
 			} else {
@@ -713,6 +722,17 @@ func (e *engine) judgeDocs(cases []Case, docs [][]byte, msgs []string) []string 
 			}
 			if msgs[ci] != "" {
 				break
+			}
+			if Unencodable(cs.V.Shape) {
+				// no JSON exists for the value: what the script evaluates to (call without
+				// the argument, syntax error) is not judged, only that it cannot break out:
+				// skeleton and static text above, lexical monitors on the fragments here
+				if lex[ci] != "" {
+					msgs[ci] = lex[ci]
+					break
+				}
+				di++
+				continue
 			}
 			if p.Want != nil {
 				w, txt, err := want(p.Want[di], cs.V)
@@ -861,7 +881,7 @@ func (e *engine) shrink(cs Case) (Case, string) {
 			break
 		}
 	}
-	leafShaped := cs.V.Shape != "json" && cs.V.Shape != "int"
+	leafShaped := cs.V.Shape != "json" && cs.V.Shape != "int" && cs.V.Shape != "num"
 	if leafShaped && len(cs.V.Cuts) == 0 {
 		cands = nil
 		for _, sh := range []string{"str", "mapkey", "mapval", "arr"} {
@@ -971,12 +991,39 @@ var jsonLeaves = []string{"null", "true", "false", "0", "-0", "1", "-1", "0.5", 
 	`[]`, `{}`, `[[]]`, `[null]`, `{"a":{}}`, `[1,"2",[3,[4,[5,[6,[7]]]]]]`, `{"a":[{"b":null},{"c":[true,false]}]}`, `[0,-0,1e308]`, `{"__proto__":1}`, `{"__proto__":{"polluted":true}}`, `{"__proto__":null}`,
 	`{"constructor":{"prototype":{"x":1}}}`, `{"1":"a","0":"b","-1":"c","01":"d"}`, `{"":""}`, `{"a b":1,"a-b":2,"a.b":3,"ä":4}`, `{"toString":"x","valueOf":1}`, `{"length":3}`}
 
+// numLeaves: "<kind>:<literal>" leaves of the num shape. The float literals are
+// mostly not exactly representable in binary32, so a float32 printed at 64-bit
+// precision (0.1 -> 0.10000000149011612) differs from its JSON encoding.
+func numLeaves() []string {
+	floats := []string{"0.1", "19.99", "1e-7", "3.4e38", "3.4028235e38", "1e-45", "1.1754944e-38", "-0", "0", "0.5", "1024", "1.1", "-3.3", "2.5e-9", "16777217", "0.3", "1e21", "123456.79", "-1e-6", "9.999999e20"}
+	var out []string
+	for _, k := range []string{"f32", "f64", "nf32", "nf64", "pf32", "pf64"} {
+		for _, f := range floats {
+			out = append(out, k+":"+f)
+		}
+	}
+	for _, k := range []string{"sf32", "a3f32", "stf32", "mf32", "af32"} {
+		for _, f := range []string{"0.1", "19.99", "1e-7", "-0", "3.4028235e38", "1e-45"} {
+			out = append(out, k+":"+f)
+		}
+	}
+	ints := map[string][]string{"i8": {"-128", "127", "0"}, "i16": {"-32768", "32767"}, "i32": {"-2147483648", "2147483647"}, "i64": {"-9007199254740991", "9007199254740991", "0"},
+		"int": {"-1", "9007199254740991"}, "u8": {"0", "255"}, "u16": {"65535"}, "u32": {"4294967295"}, "u64": {"9007199254740991", "0"}, "uint": {"42"}, "uintptr": {"4096"},
+		"ni16": {"-5", "32767"}, "nu32": {"4294967295"}, "pi8": {"-128"}}
+	for _, k := range NumKinds {
+		for _, n := range ints[k] {
+			out = append(out, k+":"+n)
+		}
+	}
+	return out
+}
+
 var intLeaves = []string{"0", "1", "-1", "42", "2147483647", "-2147483648", "4294967296", "9007199254740991", "-9007199254740991", "9007199254740992", "-9007199254740992"}
 
 // ---------------------------------------------------------------- Run
 
 func Run(c *core.Ctx) {
-	c.Rule = "cases = (JavaScript position, Go value): one compiled templ component per position, each evaluated unit decided by V8 against the value's JSON (or the original string inside literals). Positions: {{ v }} bare / in '…' \"…\" `…` literals / combinations; script templates and templ.JSFuncCall as component and in on*/hx-on attributes; templ.JSONScript; templ.JSONString in a data attribute alone and combined with every other API in one render (both orders); JSFuncCall function names; static JavaScript that stresses the parser's quote state (escaped quotes of each kind, escaped backslash before the closing quote, other quote kinds inside a literal, comments with quotes, ${} holes and nested template literals, backslash line continuations in '…' and \"…\", multi-line template literals); two and three ADJACENT interpolations in each literal kind and bare, fed the pieces of one string cut at every character boundary (short strings) or at seeded cuts; a value directly before/after static text that would complete ${, </script, <!-- or an escape with it; every literal / quote-state / multi-line position a second time from a file with CRLF line endings. Values = shape(leaf): leaf strings from every byte, code points U+0080-U+07FF + boundary list, all strings of length<=3 (quick) / <=4 (thorough) over a 21-symbol JavaScript/HTML metacharacter alphabet, JS-injection vectors with single-edit mutations, seeded random strings, 4-20 KB strings; shapes = plain string, named string, []any, []string, map value, map key, map[string]string, nested maps/slices, struct, JSON literals (numbers incl. -0, 1e308, +-2^53, bools, null, nested containers, hostile keys), int64, and pre-encoded JSON: json.RawMessage (compact, indented, bare string), a json.Marshaler, RawMessage inside struct/map/slice, with the leaf inside strings and <, >, &, U+2028/9 left raw. Sampling: elementary positions get every value; composite positions every vector, shaped vector and non-string plus every 4th (API combinations 8th, CRLF spellings 8th/16th) other value. non-trivial = the leaf contains a byte the encoders must transform (quote, backslash, <>&+/$, control, U+2028/9, invalid UTF-8) or the value is not a plain string; distinct by (position, shape, leaf, cuts)"
+	c.Rule = "cases = (JavaScript position, Go value): one compiled templ component per position, each evaluated unit decided by V8 against the value's JSON (or the original string inside literals). Positions: {{ v }} bare / in '…' \"…\" `…` literals / combinations; script templates and templ.JSFuncCall as component and in on*/hx-on attributes; templ.JSONScript; templ.JSONString in a data attribute alone and combined with every other API in one render (both orders); JSFuncCall function names; static JavaScript that stresses the parser's quote state (escaped quotes of each kind, escaped backslash before the closing quote, other quote kinds inside a literal, comments with quotes, ${} holes and nested template literals, backslash line continuations in '…' and \"…\", multi-line template literals); two and three ADJACENT interpolations in each literal kind and bare, fed the pieces of one string cut at every character boundary (short strings) or at seeded cuts; a value directly before/after static text that would complete ${, </script, <!-- or an escape with it; every literal / quote-state / multi-line position a second time from a file with CRLF line endings. Values = shape(leaf): leaf strings from every byte, code points U+0080-U+07FF + boundary list, all strings of length<=3 (quick) / <=4 (thorough) over a 21-symbol JavaScript/HTML metacharacter alphabet, JS-injection vectors with single-edit mutations, seeded random strings, 4-20 KB strings; shapes = plain string, named string, []any, []string, map value, map key, map[string]string, nested maps/slices, struct, JSON literals (numbers incl. -0, 1e308, +-2^53, bools, null, nested containers, hostile keys), int64, and pre-encoded JSON: json.RawMessage (compact, indented, bare string), a json.Marshaler, RawMessage inside struct/map/slice, with the leaf inside strings and <, >, &, U+2028/9 left raw; sized and named numeric Go types (float32/64, int8..int64, uint8..uint64, uintptr, named types, pointers, and float32 inside slices/arrays/structs/maps) with values not exactly representable in binary32, -0, MaxFloat32 and the smallest subnormals - numbers are compared bit for bit (float64 == plus the sign of zero); values encoding/json refuses (map[bool]string, structs with chan/func fields, NaN/-Inf inside containers, a failing MarshalJSON) carrying the leaf: for these only the structure is judged (tokenizer skeleton, static text, lexical breakout monitors), a Render error or a call without the argument is accepted. Sampling: elementary positions get every value; composite positions every vector, shaped vector and non-string plus every 4th (API combinations 8th, CRLF spellings 8th/16th) other value. non-trivial = the leaf contains a byte the encoders must transform (quote, backslash, <>&+/$, control, U+2028/9, invalid UTF-8) or the value is not a plain string; distinct by (position, shape, leaf, cuts)"
 	c.Assume("V8 (rogchap.com/v8go v0.9.0) evaluates the emitted JavaScript as a browser would; golang.org/x/net/html tokenizes as a browser would; each script element / on* attribute is evaluated in a fresh context after a prelude defining the recording sink functions and the function definitions emitted earlier in the same document")
 	c.Assume("numbers are compared as float64 and integers beyond +-2^53 are not generated; strings are compared after replacing invalid UTF-8 by U+FFFD and collapsing U+FFFD runs; templ.JSExpression and JSUnsafeFuncCall are documented trusted code and excluded; a raw U+2028/U+2029 inside a quoted literal is treated as ending it (pre-ES2019 engines)")
 	e := build(c)
@@ -1150,11 +1197,29 @@ func Run(c *core.Ctx) {
 	for i, n := 0, c.Pick(1200, 25000); i < n; i++ {
 		add(MkSpec(RawShapes[rnd.Intn(len(RawShapes))], leaves[rnd.Intn(len(leaves))]), 1)
 	}
+	// sized and named numeric Go types, top level and inside containers (compared bit for bit)
+	nNum := len(vals)
+	for _, l := range numLeaves() {
+		add(MkSpec("num", l), 4)
+	}
+	c.Set("values_sized_numeric_types", len(vals)-nNum)
+	// values encoding/json refuses, carrying hostile text
+	nUnenc := len(vals)
+	for _, s := range jsVectors {
+		for _, sh := range UnencShapes {
+			add(MkSpec(sh, s), 4)
+		}
+	}
+	for i, n := 0, c.Pick(600, 12000); i < n; i++ {
+		add(MkSpec(UnencShapes[rnd.Intn(len(UnencShapes))], leaves[rnd.Intn(len(leaves))]), 1)
+	}
+	c.Set("values_unencodable_shapes", len(vals)-nUnenc)
 	c.Set("values_plain_strings", nStr)
 	c.Set("values_cut_strings_for_adjacent_interpolations", nSplit)
 	c.Set("values_shaped_or_non_string", len(vals)-nBefore)
 	c.Set("values_pre_encoded_json_shapes", len(vals)-nRaw)
 	c.Set("shapes", len(Shapes))
+	c.Set("numeric_go_types", len(NumKinds))
 	c.Set("values_total", len(vals))
 
 	// ---- run: batches of values x all positions
@@ -1198,12 +1263,17 @@ func Run(c *core.Ctx) {
 					}
 					cs := Case{Pos: positions[pi].Name, V: v}
 					m := ""
+					doc := []byte(nil)
 					if docs[i] == nil {
 						m = "inconclusive: no rendering"
+					} else if errs[i][pi] != "" && Unencodable(v.Shape) {
+						c.Add("unencodable_values_refused_by_render", 1) // data-only outcome, nothing to inspect
 					} else if errs[i][pi] != "" {
 						m = "inconclusive: render error " + errs[i][pi]
+					} else {
+						doc = docs[i][pi]
 					}
-					cases, ds, ms = append(cases, cs), append(ds, docs[i][pi]), append(ms, m)
+					cases, ds, ms = append(cases, cs), append(ds, doc), append(ms, m)
 				}
 			}
 			ms = e.judgeDocs(cases, ds, ms)
